@@ -8,5 +8,7 @@ CONSTANTS
   Routes = {"argv"}
   Layouts = {"flat"}
   Slim = TRUE
+  HistKinds = {}
+  MaxLookups = 0
 INVARIANT ArgvFirstWinsFollowsDocs
 CHECK_DEADLOCK FALSE
